@@ -475,7 +475,7 @@ pub fn property(tier: Tier) -> Property {
         }),
     ];
     Property {
-        id: "C16",
+        id: "C16", scale: tier.pick(1, 1),
         stages,
         assumptions: vec!["child invocations are bijective maps (pairwise distinct arguments); Bind<Bind<_>> binding one name twice is included (inner binder shadows)".into()],
     }
